@@ -405,6 +405,40 @@ func c02Laws(args []string) error {
 		l1.done()
 		l2.done()
 	}
+	// ---- nested unions: the value of a union is its (blended) minimum over the VALUES of its operands, whatever an
+	// operand is made of - an inner union keeps its own blend, the outer blend is applied between the operands only;
+	// the blend is installed before or after the nesting
+	for cse := 0; cse < 6; cse++ {
+		a3, _ := c.placedSolid(1 + cse)
+		b3 := sdf.Transform3D(a3, sdf.Translate3d(v3.Vec{X: 0.6, Y: 0.3}))
+		c3 := sdf.Transform3D(a3, sdf.Translate3d(v3.Vec{X: -0.5, Y: 0.4, Z: 0.3}))
+		kin, kout := u(0.2, 0.6), u(0.2, 0.6)
+		inner := sdf.Union3D(a3, b3)
+		blendIn, blendOut, late := cse%3 != 1, cse%3 != 0, cse >= 3
+		if blendIn && !late {
+			inner.(*sdf.UnionSDF3).SetMin(sdf.PolyMin(kin))
+		}
+		outer := sdf.Union3D(inner, c3)
+		if blendIn && late {
+			inner.(*sdf.UnionSDF3).SetMin(sdf.PolyMin(kin))
+		}
+		omin := math.Min
+		if blendOut {
+			outer.(*sdf.UnionSDF3).SetMin(sdf.PolyMin(kout))
+			omin = sdf.PolyMin(kout)
+		}
+		imin := math.Min
+		if blendIn {
+			imin = sdf.PolyMin(kin)
+		}
+		l := newLaw(fmt.Sprintf("Union3D(Union3D(a,b),c) = min_outer(min_inner(a,b),c) [inner blend %v, outer blend %v, set late %v]", blendIn, blendOut, late))
+		bb := outer.BoundingBox()
+		for j := 0; j < 20*pts; j++ {
+			p := v3.Vec{X: u(bb.Min.X-1, bb.Max.X+1), Y: u(bb.Min.Y-1, bb.Max.Y+1), Z: u(bb.Min.Z-1, bb.Max.Z+1)}
+			l.cmp(outer.Evaluate(p), omin(imin(a3.Evaluate(p), b3.Evaluate(p)), c3.Evaluate(p)), "")
+		}
+		l.done()
+	}
 	// ---- VoxelSDF3: corner values are the wrapped values; inside a cell within [min corner, max corner]
 	for i := 0; i < 3; i++ {
 		s, sn := c.placedSolid(i + 2)
